@@ -3,6 +3,7 @@ use verif_core::*;
 pub mod c13;
 pub mod c13_126x;
 pub mod c13_127x;
+pub mod c13_hist;
 pub mod c14;
 pub mod c14_adapter;
 
